@@ -62,40 +62,118 @@ def series_record(c):
     return "(%s, %s)" % (s, qs)
 
 
+def gen_series(rnd, kind):
+    """one generated groundwater series for project ex3 (dates mmddyyyy; the run starts on the harvest date
+    09311980 of the crop file = ERNTE[0]); the last segment is never flat"""
+    import datetime
+    D = datetime.date
+
+    def lv():
+        return round(rnd.uniform(6, 25), 1)
+
+    def walk(start, stop, lo_gap, hi_gap, nmax):
+        out, d = [], start
+        while d <= stop and len(out) < nmax:
+            out.append(d)
+            d += datetime.timedelta(days=rnd.randint(lo_gap, hi_gap))
+        return out
+    if kind == "ends-mid-run":
+        ds = [D(1980, 9, 15)] + walk(D(1980, 10, 10), D(1981, rnd.randint(1, 8), rnd.randint(1, 28)), 5, 90, 8)
+    elif kind == "before-start":
+        ds = walk(D(1980, 1, rnd.randint(1, 28)), D(1980, 9, 20), 20, 90, 6)
+    elif kind == "last-on-start":
+        ds = walk(D(1980, 2, rnd.randint(1, 28)), D(1980, 9, 1), 30, 100, 4)
+    elif kind == "covers-run":
+        ds = walk(D(1980, 8, 1), D(1982, 3, 1), 20, 120, 14)
+        ds.append(D(1982, 4, rnd.randint(1, 28)))
+    elif kind == "starts-late":
+        ds = walk(D(1981, rnd.randint(1, 4), rnd.randint(1, 28)), D(1981, 10, 30), 15, 80, 5)
+    else:  # single
+        ds = [D(1981, rnd.randint(1, 12), rnd.randint(1, 28))]
+    recs = [(d.strftime("%m%d%Y"), lv()) for d in ds]
+    if kind == "last-on-start":
+        recs.append(("09311980", lv()))
+    while len(recs) > 1 and abs(recs[-1][1] - recs[-2][1]) < 0.5:
+        recs[-1] = (recs[-1][0], lv())
+    return recs
+
+
+SERIES_KINDS = ["ends-mid-run", "before-start", "last-on-start", "covers-run", "starts-late", "single"]
+
+
 def prepare(ctx):
-    """scratch copy of the examples; the polygon files of zuc/rue get two different levels (shipped: 99 99 = flat)"""
+    """scratch copy of the examples: the polygon files of zuc/rue get two different levels (shipped: 99 99 = flat),
+    their config.yml a phase outside 0..364; generated series (own ids) are appended to ex3's groundwater file.
+    returns (examples dir, plan) — plan = batch lines with harness metadata"""
     ex = waterlib.prepare_examples(ctx, extreme_rain=False)
-    mark = os.path.join(ex, ".c20")
-    if not os.path.exists(mark):
-        import random
-        rnd = random.Random(ctx.seed)
-        for proj in ("zuc", "rue"):
-            p = os.path.join(ex, "project", proj, "poly_%s.txt" % proj)
-            out = []
-            for ln in open(p).read().split("\n"):
-                t = ln.split()
-                if len(t) >= 6 and t[0].isdigit():
-                    hi_, lo_ = rnd.sample(range(6, 19), 2)        # GH, GL in dm, either order
-                    ln = re.sub(r"^(\S+\s+\S+\s+\S+\s+)\S+(\s+)\S+", lambda m: "%s%d%s%d" % (m.group(1), hi_, m.group(2), lo_), ln)
-                out.append(ln)
-            open(p, "w").write("\n".join(out))
-        open(mark, "w").write("1")
-    return ex
+    mark = os.path.join(ex, ".c20.json")
+    import json, random
+    if os.path.exists(mark):
+        return ex, json.load(open(mark))
+    rnd = random.Random(ctx.seed)
+    for proj in ("zuc", "rue"):
+        p = os.path.join(ex, "project", proj, "poly_%s.txt" % proj)
+        out = []
+        for ln in open(p).read().split("\n"):
+            t = ln.split()
+            if len(t) >= 6 and t[0].isdigit():
+                hi_, lo_ = rnd.sample(range(6, 19), 2)        # GH, GL in dm, either order
+                ln = re.sub(r"^(\S+\s+\S+\s+\S+\s+)\S+(\s+)\S+", lambda m: "%s%d%s%d" % (m.group(1), hi_, m.group(2), lo_), ln)
+            out.append(ln)
+        open(p, "w").write("\n".join(out))
+    # configured phases: the sinusoid's period is 360 and the phase is any integer
+    conf = {"zuc": rnd.randint(-400, -1), "rue": rnd.randint(365, 800)}
+    for proj, ph in conf.items():
+        p = os.path.join(ex, "project", proj, "config.yml")
+        txt, n = re.subn(r"(?m)^GroundWaterPhase:.*$", "GroundWaterPhase: %d" % ph, open(p).read())
+        if n != 1:
+            txt += "\nGroundWaterPhase: %d\n" % ph
+        open(p, "w").write(txt)
+    nrep = 6 if ctx.thorough else 1
+    series = []
+    with open(os.path.join(ex, "project", "ex3", "gw_ex3.csv"), "a") as f:
+        f.write("\n")
+        for rep in range(nrep):
+            for kind in SERIES_KINDS:
+                sid = "G%02d" % len(series)
+                recs = gen_series(rnd, kind)
+                for d, v in recs:
+                    f.write("%s,%s,%s\n" % (sid, d, v))
+                series.append({"id": sid, "kind": kind, "records": recs})
+    endy = 2005 if ctx.thorough else 1985
+    lines = []
+
+    def add(base, fmt, extra, end_year, what):
+        end = ("1231%d" if fmt == "EN" else "3112%d") % end_year
+        lines.append({"line": "%s %s EndDate=%s resultfolder=R/c20_%d" % (base, extra, end, len(lines)), "what": what})
+    ex3, zuc, rue = TRACE[0][0], TRACE[1][0], TRACE[2][0]
+    add(ex3, "EN", "", endy, {"series": "shipped"})
+    for sr in series:
+        add(ex3, "EN", "gwId=%s" % sr["id"], 1981, {"series": sr["kind"], "id": sr["id"], "records": sr["records"]})
+    add(zuc, "DE", "@phase=%d" % conf["zuc"], endy, {"phase": conf["zuc"], "via": "config.yml"})
+    add(rue, "DE", "@phase=%d" % conf["rue"], endy, {"phase": conf["rue"], "via": "config.yml"})
+    cmd = [rnd.randint(0, 364), rnd.randint(-400, -1), rnd.randint(365, 800), -360, 365] + \
+          [rnd.randint(-400, 800) for _ in range(12 if ctx.thorough else 1)]
+    for k, ph in enumerate(cmd):
+        base, fmt = (zuc, "DE") if k % 2 == 0 else (rue, "DE")
+        add(base, fmt, "GroundWaterPhase=%d @phase=%d" % (ph, ph), 1982, {"phase": ph, "via": "command line"})
+    if ctx.thorough:
+        for ln, fmt in TRACE[3:]:
+            ph = conf["zuc"] if "project=zuc" in ln else conf["rue"] if "project=rue" in ln else None
+            add(ln, fmt, "@phase=%d" % ph if ph is not None else "", endy, {"phase": ph, "via": "config.yml"} if ph is not None else {"series": "shipped"})
+    json.dump(lines, open(mark, "w"))
+    return ex, lines
 
 
 def _run(ctx):
-    ex = prepare(ctx)
-    nl, endy = (6, 2005) if ctx.thorough else (3, 1985)
-    lines = []
-    for i, (ln, fmt) in enumerate(TRACE[:nl]):
-        end = ("1231%d" if fmt == "EN" else "3112%d") % endy
-        lines.append("%s EndDate=%s resultfolder=R/c20_%d" % (ln, end, i))
+    ex, plan = prepare(ctx)
     lf = os.path.join(ctx.work, "c20_lines.txt")
     with open(lf, "w") as f:
-        f.write("\n".join(lines) + "\n")
+        f.write("\n".join(p["line"] for p in plan) + "\n")
     ns, nq = (12000, 60) if ctx.thorough else (600, 40)
-    return waterlib.run_harness(ctx, "c20", ["-seed", str(ctx.seed), "-series", str(ns), "-queries", str(nq),
-                                             "-work", ex, "-lines", lf], timeout=3000)
+    res = waterlib.run_harness(ctx, "c20", ["-seed", str(ctx.seed), "-series", str(ns), "-queries", str(nq),
+                                            "-work", ex, "-lines", lf], timeout=3000)
+    return res + (plan,)
 
 
 def _eval(ctx, corr, kind, ty, check, recs, meta, shard):
@@ -117,7 +195,7 @@ def _eval(ctx, corr, kind, ty, check, recs, meta, shard):
 
 def correspond(ctx):
     c = Corr()
-    rc, rows, oracle_lines, other, err = _run(ctx)
+    rc, rows, oracle_lines, other, err, plan = _run(ctx)
     if rc != 0:
         c.mismatches.append({"kind": "harness-crash", "stderr": err[-1500:]})
         return c
@@ -143,9 +221,10 @@ def correspond(ctx):
     _eval(ctx, c, "gw-series (failing queries)", "list (Z * float) * list (Z * (bool * float))", "gw_check",
           [series_record(x) for x in allser], [{"tag": x["tag"], "dates": x["dates"], "vals": x["vals"], "q": x["q"][:50]} for x in allser], 60)
     sins = [x for x in rows if x["k"] == "gwsin"]
-    _eval(ctx, c, "gw-sinus (1 argument, 2 GRW)", "float * Z * float * float * float * float * float", "sin_check",
-          ["(%s, %s, %s, %s, %s, %s, %s)" % (fl(x["tag"]), z(x["phase"]), fl(x["gw"]), fl(x["ampl"]), fl(x["arg"]), fl(x["s"]), fl(x["grw"])) for x in sins],
-          sins, 800)
+    _eval(ctx, c, "gw-sinus (1 argument, 2 GRW, 4 phase used is not the configured one)",
+          "float * Z * Z * float * float * float * float * float", "sin_check",
+          ["(%s, %s, %s, %s, %s, %s, %s, %s)" % (fl(x["tag"]), z(x["phase"]), z(x["gphase"]), fl(x["gw"]), fl(x["ampl"]), fl(x["arg"]), fl(x["s"]), fl(x["grw"]))
+           for x in sins], [dict(x, run=plan[x["line"]]["what"]) for x in sins], 800)
     polys = [x for x in rows if x["k"] == "gwpoly"]
     _eval(ctx, c, "gw-mean-amplitude (1 GW, 2 AMPL)", "Z * Z * float * float", "poly_check",
           ["(%s, %s, %s, %s)" % (z(x["grlo"]), z(x["grhi"]), fl(x["gw"]), fl(x["ampl"])) for x in polys], polys, 800)
@@ -161,7 +240,25 @@ def correspond(ctx):
         c.bump("traced=" + r_["from"])
     c.nontrivial = len(seen) + len(sins)
     ctx.extra["synthetic_queries"] = sum(len(x["q"]) for x in series)
-    ctx.extra["traced_runs"] = [{k: r_.get(k) for k in ("line", "from", "days", "min", "max")} for r_ in runs]
+    ctx.extra["traced_runs"] = [dict({k: r_.get(k) for k in ("line", "from", "days", "min", "max")},
+                                     what={k: v for k, v in plan[r_["line"]]["what"].items() if k != "records"}) for r_ in runs]
+    cover = []
+    for t in traces:
+        last, first = max(t["dates"]), min(t["dates"])
+        flat = len(t["vals"]) > 1 and t["vals"][-1] == t["vals"][-2]
+        cover.append({"line": t["line"], "kind": plan[t["line"]]["what"].get("series"), "records": len(t["dates"]),
+                      "days_before_first": sum(1 for q in t["q"] if q < first), "days_on_a_date": sum(1 for q in t["q"] if q in set(t["dates"])),
+                      "days_from_last_date_on": sum(1 for q in t["q"] if q >= last), "starts": "after-last" if t["q"][0] > last else
+                      "on-last" if t["q"][0] == last else "before-last", "last_segment_flat": flat})
+    ctx.extra["traced_series_coverage"] = cover
+    # the daily comparison must not be vacuous about the end of the series (seeded change C20-3)
+    need = {"passes the end of a non-flat series": any(x["days_from_last_date_on"] > 0 and x["starts"] == "before-last" and not x["last_segment_flat"] and x["records"] > 1 for x in cover),
+            "starts after the last date": any(x["starts"] == "after-last" for x in cover),
+            "starts on the last date": any(x["starts"] == "on-last" for x in cover),
+            "phase < 0": any(x["phase"] < 0 for x in sins), "phase >= 365": any(x["phase"] >= 365 for x in sins)}
+    for k, v in need.items():
+        if not v:
+            c.mismatches.append({"kind": "coverage-missing", "what": k})
     ctx.extra["traced_days_series"] = sum(len(t["q"]) for t in traces)
     ctx.extra["traced_days_sinusoid"] = len(sins)
     ctx.extra["polygon_levels"] = [{"grlo": p["grlo"], "grhi": p["grhi"]} for p in polys]
@@ -170,7 +267,7 @@ def correspond(ctx):
 
 
 def oracle(ctx, search):
-    rc, rows, oracle_lines, other, err = _run(ctx)
+    rc, rows, oracle_lines, other, err, plan = _run(ctx)
     fails = []
     if rc != 0:
         fails.append(Fail(key="harness-crash", what="groundwater harness aborted", stderr=err[-800:]))
